@@ -56,6 +56,14 @@ def run(chk: Check) -> None:
     # enabling pairs: K1's fix creates a trigger of K2 (recorded ones; thorough measures them afresh on all seeds)
     from .. import enabling, seeds as seeds_mod
 
+    # Prefilter.tla: with one scan gating every codemod, batch = chain PROVIDED no fix creates a trigger of a later
+    # codemod; the pairs below are the measurement of that proviso on the real registry
+    from .. import tlc as tlc_mod
+
+    pres = tlc_mod.run_tlc(tlc_mod.SPEC_DIR, "Prefilter", "Prefilter.cfg")
+    if pres.violated:
+        raise tlc_mod.TlcFailure(f"Prefilter.tla: {pres.violated[0][:2]}")
+    chk.add_tlc(pres)
     pairs = enabling.recorded() if chk.quick else enabling.find_pairs(per_codemod=1000)
     by_key = {s.key: s for s in seeds_mod.load()}
     for i, p in enumerate(pairs[: chk.pick(12, 400)]):
